@@ -51,7 +51,7 @@ type FileWrite struct {
 type Step struct {
 	// Cwd (run steps): the working directory of the process while spok runs — one of three scratch
 	// directories beside the project. Where spok is started from has no bearing on the project's cache.
-	Cwd int `json:"cwd,omitempty"`
+	Cwd     int            `json:"cwd,omitempty"`
 	Op      string         `json:"op"` // write revert delete run rmcache
 	File    string         `json:"file,omitempty"`
 	Content string         `json:"content,omitempty"`
